@@ -34,3 +34,619 @@ META = {
     "assumptions": ["an acknowledged write/close was executed by the server (honest servers)", "per-connection FIFO delivery (abort after the requests sent before it)"],
 }
 IMPORTS = ["Model.Matching", "Model.UploadSel"]
+
+
+# ---------------------------------------------------------------------------------------------
+# trace recorder (module/class attribute substitution only; restored on exit)
+# ---------------------------------------------------------------------------------------------
+class Recorder(object):
+    """Records what the real selector / uploader / encoder asked and were told.
+
+    existing : [(server, "ro"|"rw", sorted shnums | None)]            get_buckets answers, arrival order
+    rounds   : [{"plan": {shnum: server|None}, "alloc": [(server, [shnums])], "queries": [(server, [shnums])],
+                 "resps": [(server, ("ok", [alreadygot], [allocated]) | ("err",))]}]
+    aborts   : [(server, [shnums])]                                    ServerTracker.abort_some_buckets
+    enc      : {"landlords": {shnum: server}, "servermap": {shnum: [servers]}, "fails": [(shnum, where, raised)],
+                "err_landlords": [...]|None, "done_landlords": [...]|None}
+    """
+
+    def __init__(self, g, batch=None):
+        self.g = g
+        self.batch = batch
+        self.existing = []
+        self.rounds = []
+        self.aborts = []
+        self.enc = {"landlords": None, "servermap": None, "fails": [], "err_landlords": None, "done_landlords": None, "assert": False}
+        self.selector = None
+        self.tracker_lists = None
+        self.sel_verdict = None
+        self.initial = None
+        self._saved = []
+
+    def ix(self, serverid):
+        return self.g.server_index(serverid)
+
+    def _patch(self, obj, name, new):
+        self._saved.append((obj, name, obj.__dict__[name]))
+        setattr(obj, name, new)
+
+    def __enter__(self):
+        import allmydata.immutable.upload as U
+        import allmydata.immutable.encode as E
+        import allmydata.immutable.layout as L
+        from twisted.python.failure import Failure
+        rec = self
+
+        o_create = U.Tahoe2ServerSelector._create_trackers
+
+        def create_trackers(sel, *a, **kw):
+            ro, rw = o_create(sel, *a, **kw)
+            rec.selector = sel
+            rec.tracker_lists = (ro, rw)
+            rec.initial = {"ro": [rec.ix(t.get_serverid()) for t in ro], "rw": [rec.ix(t.get_serverid()) for t in rw]}
+            return ro, rw
+        self._patch(U.Tahoe2ServerSelector, "_create_trackers", create_trackers)
+
+        o_ask = U.ServerTracker.ask_about_existing_shares
+
+        def ask(tr):
+            kind = "ro" if any(tr is t for t in rec.tracker_lists[0]) else "rw"
+            d = o_ask(tr)
+
+            def got(res):
+                if isinstance(res, Failure):
+                    rec.existing.append((rec.ix(tr.get_serverid()), kind, None))
+                else:
+                    rec.existing.append((rec.ix(tr.get_serverid()), kind, sorted(res.keys())))
+                return res
+            d.addBoth(got)
+            return d
+        self._patch(U.ServerTracker, "ask_about_existing_shares", ask)
+
+        o_plan = U.PeerSelector.get_share_placements
+
+        def plan(ps):
+            m = o_plan(ps)
+            rec.rounds.append({"plan": dict((sh, (None if p is None else rec.ix(p))) for sh, p in m.items()),
+                               "alloc": [], "queries": [], "resps": []})
+            return m
+        self._patch(U.PeerSelector, "get_share_placements", plan)
+
+        o_alloc = U.Tahoe2ServerSelector._allocation_for
+
+        def alloc(sel, tr):
+            s = o_alloc(sel, tr)
+            rec.rounds[-1]["alloc"].append((rec.ix(tr.get_serverid()), sorted(s)))
+            return s
+        self._patch(U.Tahoe2ServerSelector, "_allocation_for", alloc)
+
+        o_query = U.ServerTracker.query
+
+        def query(tr, sharenums):
+            rnd = rec.rounds[-1]
+            rnd["queries"].append((rec.ix(tr.get_serverid()), sorted(sharenums)))
+            d = o_query(tr, sharenums)
+
+            def got(res):
+                if isinstance(res, Failure):
+                    rnd["resps"].append((rec.ix(tr.get_serverid()), ("err",)))
+                else:
+                    rnd["resps"].append((rec.ix(tr.get_serverid()), ("ok", sorted(res[0]), sorted(res[1]))))
+                return res
+            d.addBoth(got)
+            return d
+        self._patch(U.ServerTracker, "query", query)
+
+        o_abort = U.ServerTracker.abort_some_buckets
+
+        def abort_some(tr, sharenums):
+            rec.aborts.append((rec.ix(tr.get_serverid()), sorted(s for s in sharenums if s in tr.buckets)))
+            return o_abort(tr, sharenums)
+        self._patch(U.ServerTracker, "abort_some_buckets", abort_some)
+
+        o_failed = U.Tahoe2ServerSelector._failed
+
+        def failed(sel, msg):
+            rec.sel_verdict = "unhappy"
+            return o_failed(sel, msg)
+        self._patch(U.Tahoe2ServerSelector, "_failed", failed)
+
+        o_set = U.CHKUploader.set_shareholders
+
+        def set_shareholders(up, upload_trackers, already, encoder):
+            rec.sel_verdict = "ok"
+            rec.sel_result = {"use": dict((rec.ix(t.get_serverid()), sorted(t.buckets.keys())) for t in upload_trackers),
+                              "already": dict((sh, sorted(rec.ix(p) for p in ps)) for sh, ps in already.items())}
+            try:
+                return o_set(up, upload_trackers, already, encoder)
+            except AssertionError:
+                rec.enc["assert"] = True
+                raise
+        self._patch(U.CHKUploader, "set_shareholders", set_shareholders)
+
+        o_eset = E.Encoder.set_shareholders
+
+        def eset(enc, landlords, servermap):
+            rec.enc["landlords"] = dict((sh, rec.ix(b.get_peerid())) for sh, b in landlords.items())
+            rec.enc["servermap"] = dict((sh, sorted(rec.ix(p) for p in ps)) for sh, ps in servermap.items())
+            rec.encoder = enc
+            rec.enc["nseg"] = enc.num_segments
+            return o_eset(enc, landlords, servermap)
+        self._patch(E.Encoder, "set_shareholders", eset)
+
+        o_rm = E.Encoder._remove_shareholder
+
+        def rm(enc, why, shareid, where):
+            present = shareid in enc.landlords
+            try:
+                r = o_rm(enc, why, shareid, where)
+            except U.UploadUnhappinessError:
+                rec.enc["fails"].append((shareid, where, present, True))
+                raise
+            rec.enc["fails"].append((shareid, where, present, False))
+            return r
+        self._patch(E.Encoder, "_remove_shareholder", rm)
+
+        o_err = E.Encoder.err
+
+        def err(enc, f):
+            if rec.enc["err_landlords"] is None:
+                rec.enc["err_landlords"] = sorted(enc.landlords.keys())
+                rec.enc["err_at"] = len(rec.enc["fails"])
+            return o_err(enc, f)
+        self._patch(E.Encoder, "err", err)
+
+        o_done = E.Encoder.done
+
+        def done(enc, res):
+            rec.enc["done_landlords"] = sorted(enc.landlords.keys())
+            rec.enc["done_servermap"] = dict((sh, sorted(rec.ix(p) for p in ps)) for sh, ps in enc.servermap.items())
+            return o_done(enc, res)
+        self._patch(E.Encoder, "done", done)
+
+        if self.batch:
+            o_wb = L._WriteBuffer
+            b = self.batch
+            self._patch(L, "_WriteBuffer", lambda batch_size: o_wb(b))
+        return self
+
+    def __exit__(self, *a):
+        for obj, name, old in reversed(self._saved):
+            setattr(obj, name, old)
+        self._saved = []
+        return False
+
+    def selector_state(self):
+        """Final bookkeeping of the real selector, canonicalised (server indices, sorted lists)."""
+        sel = self.selector
+        if sel is None:
+            return None
+        ps = sel.peer_selector
+        ix = self.ix
+        st = sel._query_stats
+        return {
+            "preexisting": dict((sh, sorted(ix(p) for p in v)) for sh, v in sel.preexisting_shares.items()),
+            "homeless": sorted(sel.homeless_shares),
+            "use": dict((ix(t.get_serverid()), sorted(t.buckets.keys())) for t in sel.use_trackers),
+            "with_shares": sorted(ix(p) for p in sel.serverids_with_shares),
+            "peers": sorted(ix(p) for p in ps.peers),
+            "ro_peers": sorted(ix(p) for p in ps.readonly_peers),
+            "bad_peers": sorted(ix(p) for p in ps.bad_peers),
+            "existing": dict((ix(p), sorted(v)) for p, v in ps.existing_shares.items()),
+            "write_trackers": sorted(ix(t.get_serverid()) for t in self.tracker_lists[1]),
+            "readonly_trackers": sorted(ix(t.get_serverid()) for t in self.tracker_lists[0]),
+            "stats": [st.total, st.good, st.bad, st.full, st.error, st.contacted],
+        }
+
+
+# ---------------------------------------------------------------------------------------------
+# scenarios on the real grid
+# ---------------------------------------------------------------------------------------------
+CONVERGENCE = b"c06-convergence-secret"
+_refs = {}
+
+
+def file_data(size):
+    return bytes((i * 7 + (i >> 8) * 13 + 3) % 251 for i in range(size))
+
+
+def reference(k, N, segsize, size):
+    """Shares of a fault-free upload of the same file with the same parameters on a pristine grid
+    (convergent encryption: same storage index, byte-identical shares).  Cached per process."""
+    key = (k, N, segsize, size)
+    if key not in _refs:
+        from core import grid as G
+        with G.Grid(num_servers=N, k=k, n=N, happy=1, max_segment_size=segsize, seed=0) as g:
+            ur = g.run(g.upload_results(file_data(size), convergence=CONVERGENCE))
+            cap = ur.get_uri()
+            si = g._si(cap)
+            shares, containers = {}, {}
+            for sh in g.find_shares(cap):
+                containers[sh.shnum] = g.read_share(sh)
+                shares[sh.shnum] = g.server(sh.server).get_buckets(si)[sh.shnum].read(0, 1 << 24)
+            assert sorted(shares) == list(range(N)), sorted(shares)
+        _refs[key] = {"cap": cap, "si": si, "shares": shares, "containers": containers}
+    return _refs[key]
+
+
+def share_path(g, server, si, shnum, incoming=False):
+    from allmydata.storage.server import storage_index_to_dir
+    ss = g.server(server)
+    return os.path.join(ss.incomingdir if incoming else ss.sharedir, storage_index_to_dir(si), "%d" % shnum)
+
+
+def place_share(g, server, si, shnum, container):
+    p = share_path(g, server, si, shnum)
+    os.makedirs(os.path.dirname(p), exist_ok=True)
+    with open(p, "wb") as f:
+        f.write(container)
+
+
+def visible_shares(g, si):
+    """{(server, shnum): share data} as a reader sees them through get_buckets (direct server API)."""
+    out = {}
+    for i in sorted(g.server_ids):
+        for shnum, br in g.server(i).get_buckets(si).items():
+            out[(i, shnum)] = br.read(0, 1 << 24)
+    return out
+
+
+def incoming_shares(g, si):
+    from allmydata.storage.server import storage_index_to_dir
+    out = []
+    for i in sorted(g.server_ids):
+        d = os.path.join(g.server(i).incomingdir, storage_index_to_dir(si))
+        if os.path.isdir(d):
+            out.extend((i, int(f)) for f in os.listdir(d) if f.isdigit())
+    return sorted(out)
+
+
+def apply_states(g, states):
+    for s, st in states.items():
+        s = int(s)
+        if st == "full":
+            g.set_full(s)
+        elif st in ("ro", "ro-announced"):
+            g.set_readonly(s)
+            if st == "ro-announced":
+                for w in g._wrappers(s):
+                    w.version = w.original.remote_get_version()
+        elif st == "broken":
+            g.break_server(s)
+
+
+def kuhn(edges):
+    """Size of a maximum matching of a bipartite relation given as a set of (server, share) pairs."""
+    adj = {}
+    for p, s in edges:
+        adj.setdefault(p, []).append(s)
+    match = {}
+
+    def try_(p, seen):
+        for s in adj[p]:
+            if s in seen:
+                continue
+            seen.add(s)
+            if s not in match or try_(match[s], seen):
+                match[s] = p
+                return True
+        return False
+    n = 0
+    for p in sorted(adj):
+        if try_(p, set()):
+            n += 1
+    return n
+
+
+def run_scenario(sc, keep_grid=False):
+    """Execute one scenario on a fresh grid.  Returns a dict of observations (pure data)."""
+    from core import grid as G
+    from twisted.internet import defer
+    ref = reference(sc["k"], sc["N"], sc["segsize"], sc["size"])
+    si = ref["si"]
+    data = file_data(sc["size"])
+    obs = {}
+    with G.Grid(num_servers=sc["servers"], k=sc["k"], n=sc["N"], happy=sc["happy"], max_segment_size=sc["segsize"],
+                seed=sc["seed"], fifo=sc.get("fifo", "server"), timeout=120) as g:
+        first = sc.get("first")
+        if first is not None:
+            # a real earlier upload of the same file that could only use the servers in `first`
+            others = [s for s in range(sc["servers"]) if s not in first]
+            for s in others:
+                g.break_server(s)
+            g.set_encoding(happy=1)
+            out0 = g.run(g.upload_results(data, convergence=CONVERGENCE), outcome=True)
+            g.run(defer.Deferred(), outcome=True)
+            for s in others:
+                g.unbreak_server(s)
+            g.set_encoding(happy=sc["happy"])
+            obs["first_status"] = out0.status if out0.status != "error" else out0.error
+        for s, sh in sc.get("pre", []):
+            place_share(g, s, si, sh, ref["containers"][sh])
+        for s, sh in sc.get("pre_delete", []):
+            p = share_path(g, s, si, sh)
+            if os.path.exists(p):
+                os.unlink(p)
+        pre = visible_shares(g, si)
+        obs["pre"] = sorted(pre)
+        obs["pre_complete"] = all(v == ref["shares"][sh] for (s, sh), v in pre.items())
+        obs["order"] = g.storage_broker_order(si)
+        apply_states(g, sc.get("states", {}))
+        g.set_faults(sc.get("faults", []))
+        n0 = len(g.sched.trace)
+        with Recorder(g, batch=sc.get("batch")) as rec:
+            out = g.run(g.upload_results(data, convergence=CONVERGENCE), outcome=True)
+            drained = g.run(defer.Deferred(), outcome=True)
+        obs["status"] = out.status if out.status != "error" else out.error
+        obs["message"] = (out.failure.getErrorMessage()[:300] if out.failure is not None else None)
+        obs["wire"] = [list(t) for t in g.sched.trace[n0:]]
+        obs["lost"] = [list(c) for c in (drained.hung_info or {}).get("lost", [])]
+        g.set_faults([])
+        for s, st in sc.get("states", {}).items():
+            if st == "broken":
+                g.unbreak_server(int(s))
+        vis = visible_shares(g, si)
+        obs["visible"] = sorted(vis)
+        obs["partial"] = sorted(k_ for k_, v in vis.items() if v != ref["shares"][k_[1]])
+        obs["incoming"] = incoming_shares(g, si)
+        if getattr(rec, "encoder", None) is not None and rec.enc["landlords"] is not None:
+            rec.enc["final_servermap"] = dict((sh, sorted(rec.ix(p) for p in ps)) for sh, ps in rec.encoder.servermap.items())
+            rec.enc["final_landlords"] = sorted(rec.encoder.landlords.keys())
+        obs["rec"] = {"initial": rec.initial, "existing": rec.existing, "rounds": rec.rounds, "aborts": rec.aborts, "enc": rec.enc,
+                      "sel_verdict": rec.sel_verdict, "sel_result": getattr(rec, "sel_result", None), "final": rec.selector_state()}
+        if out.status == "ok":
+            ur = out.value
+            obs["sharemap"] = sorted((g.server_index(srv.get_serverid()), sh) for sh, srvs in ur.get_sharemap().items() for srv in srvs)
+            obs["servermap"] = sorted((g.server_index(srv.get_serverid()), sh) for srv, shs in ur.get_servermap().items() for sh in shs)
+            obs["counts"] = [ur.get_preexisting_shares(), ur.get_pushed_shares()]
+            obs["cap_ok"] = (ur.get_uri() == ref["cap"])
+            if sc.get("download"):
+                # keep exactly the shares the results name (plus the found pre-existing ones) and read the file back
+                keep = set(obs["sharemap"]) | set(found_edges(sc, obs))
+                for sh in g.find_shares(si):
+                    if (sh.server, sh.shnum) not in keep:
+                        g.delete_share(sh)
+                rd = g.run(g.download(ref["cap"]), outcome=True)
+                obs["download"] = {"status": rd.status if rd.status != "error" else rd.error, "same": rd.status == "ok" and rd.value == data,
+                                   "distinct": len(set(sh for _, sh in keep))}
+        obs["logged_errors"] = len(g.logged_errors)
+    return obs
+
+
+def faulted(sc, server, method):
+    """Does the scenario keep the client from getting `server`'s answer to its first `method` call?"""
+    if sc.get("states", {}).get(str(server), sc.get("states", {}).get(server)) == "broken":
+        return True
+    for f in sc.get("faults", []):
+        if f.get("server") == server and f.get("method") == method and f.get("action") in ("error", "error_after", "drop", "drop_response") \
+                and f.get("nth", 0) == 0:
+            return True
+    return False
+
+
+def found_edges(sc, obs):
+    """Pre-existing complete shares the uploader can have found: on one of the first 2N servers of the permuted
+    list whose get_buckets answer reached the client (scenario data and disk state only)."""
+    cand = obs["order"][:2 * sc["N"]]
+    return sorted((s, sh) for (s, sh) in map(tuple, obs["pre"]) if s in cand and not faulted(sc, s, "get_buckets"))
+
+
+# ---------------------------------------------------------------------------------------------
+# model terms
+# ---------------------------------------------------------------------------------------------
+def t_ns(xs):
+    return T.lst([T.N(x) for x in xs])
+
+
+def t_dmap(d):
+    return T.lst(["(%s, %s)" % (T.N(int(k)), t_ns(v)) for k, v in sorted((int(k), v) for k, v in d.items())])
+
+
+def t_pairs(ps):
+    return T.lst(["(%s, %s)" % (T.N(a), T.N(b)) for a, b in ps])
+
+
+WRITE_STAGES = ["put_crypttext_hashes", "put_block_hashes", "put_share_hashes", "put_uri_extension"]
+
+
+def stage_labels(nseg):
+    return ["start"] + ["segnum=%d" % i for i in range(nseg)] + WRITE_STAGES
+
+
+def model_inputs(sc, obs):
+    """(config term, script term) from the recorded responses of the real upload."""
+    rec = obs["rec"]
+    cfg = "{| c_happy := %s; c_total := %s; c_ro := %s; c_rw := %s |}" % (
+        T.Z(sc["happy"]), T.N(sc["N"]), t_ns(rec["initial"]["ro"]), t_ns(rec["initial"]["rw"]))
+    ex = T.lst(["(%s, %s)" % (T.N(s), "ExErr" if shs is None else "(ExOk %s)" % t_ns(shs)) for s, _kind, shs in rec["existing"]])
+    rounds = []
+    for rnd in rec["rounds"]:
+        plan = T.lst(["(%s, %s)" % (T.N(int(sh)), T.opt(None if p is None else T.N(p))) for sh, p in sorted(rnd["plan"].items())])
+        resps = T.lst(["(%s, %s)" % (T.N(s), "AlErr" if r[0] == "err" else "(AlOk %s %s)" % (t_ns(r[1]), t_ns(r[2]))) for s, r in rnd["resps"]])
+        rounds.append("{| r_plan := %s; r_resps := %s |}" % (plan, resps))
+    enc = rec["enc"]
+    writes, close = [], []
+    if enc["landlords"] is not None:
+        nseg = enc["nseg"]
+        allsh = list(range(sc["N"]))
+        fails = enc["fails"]
+        for label in stage_labels(nseg):
+            bad = [sh for sh, where, _present, _raised in fails if where == label]
+            writes.append(T.lst(["(%s, WErr)" % T.N(sh) for sh in bad] + ["(%s, WOk)" % T.N(sh) for sh in allsh if sh not in bad]))
+        # close round: what happened on the wire tells a failed flush from a failed close
+        wire_close = {}
+        for _seq, _c, srv, meth, shnum, action in obs["wire"]:
+            if meth == "close":
+                wire_close[(srv, shnum)] = action
+        bad = [sh for sh, where, _present, _raised in fails if where == "close"]
+        for sh in bad:
+            srv = enc["landlords"].get(sh, enc["landlords"].get(str(sh)))
+            act = wire_close.get((srv, sh))
+            if act is None:
+                close.append("(%s, CFlushErr)" % T.N(sh))
+            else:
+                close.append("(%s, CErr %s)" % (T.N(sh), T.boolean(act != "error")))
+        close += ["(%s, COk)" % T.N(sh) for sh in allsh if sh not in bad]
+    script = "{| x_existing := %s; x_rounds := %s; x_writes := %s; x_close := %s |}" % (ex, T.lst(rounds), T.lst(writes), T.lst(close))
+    return cfg, script
+
+
+def impl_verdict(obs):
+    rec = obs["rec"]
+    st = obs["status"]
+    if st == "ok":
+        return "VSuccess"
+    if st == "UploadUnhappinessError":
+        return "VUnhappySel" if rec["sel_verdict"] == "unhappy" else "VUnhappyEnc"
+    if st == "AssertionError" and rec["enc"]["assert"]:
+        return "VAssert"
+    return None
+
+
+def model_term(sc, obs):
+    """Closed bool term: the model replayed on the recorded responses gives the implementation's verdict, bookkeeping,
+    queries, aborts, closes, final servermap and reported map."""
+    rec = obs["rec"]
+    cfg, script = model_inputs(sc, obs)
+    v = impl_verdict(obs)
+    f = rec["final"]
+    o = ("{| o_preexisting := %s; o_homeless := %s; o_use := %s; o_with_shares := %s; o_peers := %s; o_ro_peers := %s; "
+         "o_bad_peers := %s; o_existing := %s; o_wtrackers := %s; o_rtrackers := %s; o_stats := %s |}" % (
+             t_dmap(f["preexisting"]), t_ns(f["homeless"]), t_dmap(f["use"]), t_ns(f["with_shares"]), t_ns(f["peers"]),
+             t_ns(f["ro_peers"]), t_ns(f["bad_peers"]), t_dmap(f["existing"]), t_ns(f["write_trackers"]),
+             t_ns(f["readonly_trackers"]), t_ns(f["stats"])))
+    queries = T.lst([T.lst(["(%s, %s)" % (T.N(s), t_ns(shs)) for s, shs in rnd["queries"]]) for rnd in rec["rounds"]])
+    aborted = sorted(set((srv, sh) for _q, _c, srv, meth, sh, _a in obs["wire"] if meth == "abort"))
+    closed = sorted(set((srv, sh) for _q, _c, srv, meth, sh, _a in obs["wire"] if meth == "close"))
+    parts = ["verdict_eqb (r_verdict r) %s" % v, "sel_matches (r_sel r) %s" % o, "all_queries_eqb (r_queries r) %s" % queries,
+             "pairs_eqb (aborted_buckets (r_log r)) %s" % t_pairs(aborted), "pairs_eqb (closed_buckets (r_log r)) %s" % t_pairs(closed)]
+    if v == "VSuccess":
+        parts.append("pairs_eqb (r_placed r) %s" % t_pairs([(sh, srv) for srv, sh in obs["sharemap"]]))
+    if v in ("VSuccess", "VUnhappyEnc"):
+        parts.append("dm_eqb (r_servermap r) %s" % t_dmap(rec["enc"]["final_servermap"]))
+        parts.append("dm_eqb (r_found r) %s" % t_dmap(rec["sel_result"]["already"]))
+    return "(let r := upload_run %s %s in %s)" % (cfg, script, " && ".join(parts))
+
+
+# ---------------------------------------------------------------------------------------------
+# generator
+# ---------------------------------------------------------------------------------------------
+def gen_scenario(r, thorough=False):
+    S = r.choice([1, 2, 3, 3, 4, 4, 5, 5, 6, 6, 7, 8, 8, 10, 12])
+    N = r.choice([1, 2, 3, 3, 4, 4, 5, 5, 6, 6, 8, 10])
+    k = r.choice([1, 1, 2, 2, 3, r.randint(1, N)])
+    k = min(k, N)
+    size = r.choice([56, 57, 100, 300, 300, 1000])
+    nseg = r.choice([1, 1, 2, 3, 4])
+    segsize = max(k, -(-size // nseg))
+    batch = r.choice([None, None, 40, 100, 400])
+    sc = {"seed": r.getrandbits(30), "servers": S, "k": k, "N": N, "size": size, "segsize": segsize, "batch": batch}
+    style = r.choice(["clean", "mixed", "mixed", "mixed", "hostile", "preheavy", "dupes"])
+    states, faults = {}, []
+    p_bad = {"clean": 0.0, "mixed": 0.3, "hostile": 0.6, "preheavy": 0.25, "dupes": 0.5}[style]
+    for s in range(S):
+        if r.random() >= p_bad:
+            if r.random() < 0.12:
+                faults.append({"server": s, "method": r.choice(["get_buckets", "allocate_buckets", "write", "close"]), "nth": 0, "count": None, "action": "delay"})
+            continue
+        kind = r.choice(["full", "full", "ro", "ro-announced", "ro-announced", "broken", "alloc-error", "alloc-error", "alloc-lost",
+                         "write-error", "write-error", "write-error", "close-error", "close-error", "close-error-after", "get-error", "get-lost"])
+        if kind in ("full", "ro", "ro-announced", "broken"):
+            states[str(s)] = kind
+        elif kind == "alloc-error":
+            faults.append({"server": s, "method": "allocate_buckets", "nth": r.choice([0, 0, 0, 1]), "count": r.choice([1, None]), "action": "error"})
+        elif kind == "alloc-lost":
+            faults.append({"server": s, "method": "allocate_buckets", "nth": 0, "count": 1, "action": r.choice(["drop_response", "error_after", "drop"])})
+        elif kind == "write-error":
+            faults.append({"server": s, "method": "write", "nth": r.choice([0, 0, 1, 2, 3, 5]), "count": r.choice([1, 1, None]),
+                           "action": r.choice(["error", "error", "error_after"])})
+        elif kind == "close-error":
+            faults.append({"server": s, "method": "close", "nth": r.choice([0, 0, 1]), "count": 1, "action": "error"})
+        elif kind == "close-error-after":
+            faults.append({"server": s, "method": "close", "nth": 0, "count": 1, "action": "error_after"})
+        elif kind == "get-error":
+            faults.append({"server": s, "method": "get_buckets", "nth": 0, "count": 1, "action": r.choice(["error", "error_after"])})
+        elif kind == "get-lost":
+            faults.append({"server": s, "method": "get_buckets", "nth": 0, "count": 1, "action": r.choice(["drop", "drop_response"])})
+    pre = set()
+    if style == "preheavy":
+        for _ in range(r.randint(1, N + 3)):
+            pre.add((r.randrange(S), r.randrange(N)))
+    elif style == "dupes":
+        for sh in r.sample(range(N), min(N, r.choice([1, 1, 2]))):
+            for s in r.sample(range(S), min(S, r.randint(2, 4))):
+                pre.add((s, sh))
+    elif style != "clean" and r.random() < 0.5:
+        for _ in range(r.randint(1, 3)):
+            pre.add((r.randrange(S), r.randrange(N)))
+    sc["pre"] = sorted(list(e) for e in pre)
+    if style in ("mixed", "preheavy") and r.random() < 0.2 and S >= 2:
+        sc["first"] = sorted(r.sample(range(S), r.randint(1, S - 1)))
+    sc["states"] = states
+    sc["faults"] = faults
+    # happiness threshold around what the healthy servers can give
+    noisy = set(int(s) for s in states) | set(f["server"] for f in faults if f["action"] != "delay")
+    healthy = S - len(noisy)
+    guess = min(N, healthy + len(set(s for s, _ in pre if s in noisy and states.get(str(s)) != "broken")))
+    sc["happy"] = max(1, min(N + (1 if r.random() < 0.04 else 0),
+                             r.choice([guess - 1, guess, guess, guess, guess + 1, guess + 1, r.randint(1, N), 1, N])))
+    if r.random() < 0.08:
+        sc["fifo"] = "none"
+    sc["download"] = r.random() < 0.5
+    return sc
+
+
+def excused_incoming(sc):
+    """Servers on which an allocated bucket may legitimately stay in incoming/: abort cannot be delivered (broken) or the
+    client never learnt of the allocation (answer to allocate_buckets lost or turned into an error after execution)."""
+    ex = set(int(s) for s, st in sc.get("states", {}).items() if st == "broken")
+    for f in sc.get("faults", []):
+        if f.get("method") == "allocate_buckets" and f.get("action") in ("drop_response", "error_after"):
+            ex.add(f["server"])
+    return ex
+
+
+def judge(ctx, sc, obs):
+    """The property evaluated on what the servers hold (independent of the model).  Returns the number of oracle failures."""
+    bad = 0
+    st = obs["status"]
+    case = {"scenario": sc}
+    visible = set(map(tuple, obs["visible"]))
+    partial = set(map(tuple, obs["partial"]))
+    if st == "ok":
+        named = set(map(tuple, obs["sharemap"]))
+        missing = sorted(e for e in named if e not in visible or e in partial)
+        if missing:
+            bad += 1
+            ctx.oracle_fail("reported-share-missing-or-incomplete",
+                            "upload succeeded and names (server, share) %r, which are absent or incomplete on those servers" % (missing,),
+                            case=case, expected="every named share complete on its server", observed={"visible": sorted(visible), "partial": sorted(partial)})
+        edges = set(e for e in named if e in visible and e not in partial)
+        edges |= set(e for e in map(tuple, found_edges(sc, obs)) if e in visible and e not in partial)
+        m = kuhn(edges)
+        if m < sc["happy"]:
+            bad += 1
+            ctx.oracle_fail("success-below-happiness-threshold",
+                            "upload reported success with happy=%d but the shares it placed or can have found admit a maximum matching of only %d" % (sc["happy"], m),
+                            case=case, expected=">= %d" % sc["happy"], observed={"matching": m, "edges": sorted(edges), "sharemap": sorted(named)})
+        if set(map(tuple, obs["servermap"])) != named or obs["counts"][1] != len(set(sh for _, sh in named)):
+            bad += 1
+            ctx.oracle_fail("results-maps-inconsistent", "UploadResults sharemap, servermap and pushed count disagree", case=case,
+                            observed={"sharemap": obs["sharemap"], "servermap": obs["servermap"], "counts": obs["counts"]})
+        dl = obs.get("download")
+        if dl and dl["distinct"] >= sc["k"] and not dl["same"]:
+            bad += 1
+            ctx.oracle_fail("reported-shares-not-readable", "with only the shares the upload placed or found left on the grid the file cannot be read back (%s)" % dl["status"],
+                            case=case, expected="file contents", observed=dl)
+    elif st == "UploadUnhappinessError":
+        if partial:
+            bad += 1
+            ctx.oracle_fail("partial-share-visible-after-unhappiness", "upload failed with UploadUnhappinessError and readers see incomplete shares %r" % (sorted(partial),),
+                            case=case, expected="no incomplete share visible", observed=sorted(partial))
+        ex = excused_incoming(sc)
+        left = sorted(e for e in map(tuple, obs["incoming"]) if e[0] not in ex)
+        if left:
+            bad += 1
+            ctx.oracle_fail("incoming-share-left-after-unhappiness", "upload failed with UploadUnhappinessError and did not abort the buckets %r (still in incoming/)" % (left,),
+                            case=case, expected="every allocated bucket aborted", observed=left)
+    return bad
